@@ -288,6 +288,61 @@ pub mod sup {
         *v ^ 0x80
     }
 
+    // ---- the same methods behind generic functions: reached only through paths with generic arguments (`g::eq_le::<u8>`) ----
+    pub mod g {
+        use super::*;
+        pub trait AsU8 {
+            fn as_u8(&self) -> u8;
+        }
+        impl AsU8 for u8 {
+            fn as_u8(&self) -> u8 {
+                *self
+            }
+        }
+        pub trait CloneM {
+            fn clone_m(&self) -> Self;
+        }
+        impl CloneM for Bump {
+            fn clone_m(&self) -> Self {
+                super::clone_m(self)
+            }
+        }
+        impl CloneM for Unlawful {
+            fn clone_m(&self) -> Self {
+                super::clone_mu(self)
+            }
+        }
+        impl CloneM for u8 {
+            fn clone_m(&self) -> Self {
+                super::clone_m8(self)
+            }
+        }
+        pub fn eq_le<T: AsU8>(a: &T, b: &T) -> bool {
+            super::eq_le(&a.as_u8(), &b.as_u8())
+        }
+        pub fn eq_half<T: AsU8>(a: &T, b: &T) -> bool {
+            super::eq_half(&a.as_u8(), &b.as_u8())
+        }
+        pub fn rev_cmp<T: AsU8>(a: &T, b: &T) -> Ordering {
+            super::rev_cmp(&a.as_u8(), &b.as_u8())
+        }
+        pub fn rev_pcmp<T: AsU8>(a: &T, b: &T) -> Option<Ordering> {
+            super::rev_pcmp(&a.as_u8(), &b.as_u8())
+        }
+        pub fn half_cmp<T: AsU8>(a: &T, b: &T) -> Ordering {
+            super::half_cmp(&a.as_u8(), &b.as_u8())
+        }
+        pub fn half_pcmp<T: AsU8>(a: &T, b: &T) -> Option<Ordering> {
+            super::half_pcmp(&a.as_u8(), &b.as_u8())
+        }
+        pub fn hash_m<T: AsU8, H: core::hash::Hasher>(v: &T, h: &mut H) {
+            super::hash_m(&v.as_u8(), h)
+        }
+        pub fn clone_m<T: CloneM>(v: &T) -> T {
+            v.clone_m()
+        }
+    }
+
     // ---- type-agnostic methods used when a trait is added only as a bystander (C15) ----
     pub fn eq_any<T>(_a: &T, _b: &T) -> bool {
         true
